@@ -5,6 +5,7 @@ mod fmt;
 mod gen;
 mod hufcodec;
 mod hufx;
+mod mat;
 mod frames;
 mod fsecodec;
 mod fsex;
@@ -111,6 +112,7 @@ fn main() {
         "c05case" => fd::c05case(rest),
         "c11exec" => fd::c11exec(rest),
         "c03exec" => c03::c03exec(rest),
+        "c17rows" => mat::c17rows(rest),
         "c14rows" => fmt::c14rows(rest),
         "c12dec" => fsex::c12dec(rest),
         "c12enc" => fsex::c12enc(rest),
